@@ -380,7 +380,7 @@ class StringValue(Value):
         if value[-1] != value[0]:
             raise ValueTypeError("string must begin and end with same delimiter")
         self.original_string = value[1:-1]
-        self.hex_array = ["{:X}".format(ord(x)) for x in value[1:-1]]
+        self.hex_array = ["{:02X}".format(ord(x)) for x in value[1:-1]]
 
     def hex(self, size=0):
         return "".join(self.hex_array)
